@@ -135,6 +135,7 @@ class Terms:
         self.facts = body.facts
         self._cache = {}
         self._callee = {}
+        self.subst = None     # upvar index -> caller's argument term (a private async helper analysed in its caller's terms)
 
     def callee(self, b):
         c = self._callee.get(b)
@@ -223,6 +224,8 @@ class Terms:
             name = e["name"] if e.get("name") is not None else e["f"]
             if isinstance(name, str) and name.isdigit():
                 name = int(name)
+            if self.subst is not None and t == ("param", 1) and e["f"] in self.subst:
+                return self.subst[e["f"]]
             return ("field", t, name)
         if "dc" in e:
             return ("variant", t, e["name"] if e.get("name") else e["dc"])
